@@ -15,7 +15,7 @@ from harness import lib_piter_real as lr
 
 PID = 'C13'
 TITLE = 'Parallel iteration yields the sequential multiset and releases its threads'
-LEAN_MODULES = ['MlModel.Properties.C13', 'MlModel.Properties.C13Two', 'MlModel.Witness.C13']
+LEAN_MODULES = ['MlModel.Properties.C13', 'MlModel.Properties.C13Two', 'MlModel.Properties.C13Interrupt', 'MlModel.Witness.C13']
 TRUSTED = [
     'scheduler shim (harness/sched/shim.py): CPython Lock/RLock/Condition/queue semantics and a thread pool that starts a '
     'submitted task when fewer than max_workers tasks run and whose shutdown() joins; one atomic step = one synchronisation '
@@ -85,6 +85,7 @@ def gen_cases(ctx):
       else:
         case['num_steps'], case['fail_on'] = None, rng.choice(allv[-3:])
       ctx.count('directed', 'late-task/full-queue')
+    case = round8(rng, case, i, ctx)
     ctx.count('api', case['api'])
     ctx.count('par', case['par'])
     ctx.count('cap', case['cap'])
@@ -92,6 +93,43 @@ def gen_cases(ctx):
     ctx.count('event', 'early' if case['num_steps'] is not None else
               ('fail' if (case['fail_on'] is not None or any('fail' in it for it in case['inputs'])) else 'exhaust'))
     yield case
+
+
+BASE_FAULTS = [k for k in lp.lq.FAULTS if k != 'fail']
+
+
+def round8(rng, case, i, ctx):
+  """Round 8: (1) faults that are BaseExceptions but not Exceptions, raised by an input or by the row function;
+  (2) observers after the fact: two more next() calls on the same iterator when the run has ended;
+  (3) every 8th case: a MultiplexIterator whose consumer is interrupted (KeyboardInterrupt) at a scheduler-chosen yield
+  point inside next(), over inputs that do not fit into the bounded buffer (3 * parallelism)."""
+  if case['api'] in ('piter2', 'chain'):
+    return case
+  if i % 8 == 1:
+    P = rng.randrange(1, 3)
+    n = rng.choice([1, 2, 2, 3])
+    case = dict(api='multiplex', par=P, cap=0, workers=0,
+                inputs=[[100 * j + k + 1 for k in range(rng.randrange(3, 7))] for j in range(n)],
+                fn=rng.choice(['ident', 'dup', 'ident', 'inc']), fail_on=None, num_steps=None, max_batch=0, multi_ret=False,
+                intr=dict(at=rng.randrange(0, 70)),
+                sched=dict(kind=rng.choice(['random', 'pct']), seed=rng.randrange(10**9), changes=rng.randrange(1, 6),
+                           horizon=rng.choice([50, 150, 400])))
+    if rng.random() < 0.2:
+      case['inputs'][rng.randrange(n)].insert(rng.randrange(1, 4), rng.choice(['fail'] + BASE_FAULTS))
+    ctx.count('directed', 'interrupt')
+    return case
+  case['post'] = 2
+  for it in case['inputs']:
+    for k, v in enumerate(it):
+      if v == 'fail' and rng.random() < 0.5:
+        it[k] = rng.choice(BASE_FAULTS)
+      if lp.lq.is_fail(it[k]):
+        ctx.count('fault_class', 'input:' + it[k])
+  if case.get('fail_on') is not None:
+    if rng.random() < 0.5:
+      case['fail_cls'] = rng.choice(BASE_FAULTS)
+    ctx.count('fault_class', 'fn:' + (case.get('fail_cls') or 'fail'))
+  return case
 
 
 def run_impl(case):
@@ -146,7 +184,25 @@ def compare(obs, m):
   return lp.compare(obs, m)
 
 
+INTR = {}           # where the interrupts landed (label of the consumer's pending operation), main process
+OBS8 = {}           # what the after-the-fact next() calls followed
+
+
 def nontrivial(case, obs):
+  if case.get('stage') != 'real_threads':
+    it = obs.get('intr')
+    if it is not None:
+      k = it['fired'][0] if it['fired'] else 'not delivered (the run ended first)'
+      INTR[k] = INTR.get(k, 0) + 1
+    if obs.get('post') and obs['outcome'] == 'done':
+      end = (obs['threads'][0]['outcome'] or {}).get('raise')
+      k = ('early-stop' if obs['threads'][0].get('early') else
+           'failure' if end == 'ValueError' else 'clean-end' if end == 'StopIteration' else str(end))
+      for c in obs.get('fault_classes') or []:
+        if c != 'ValueError' and end == 'ValueError':
+          OBS8['base-fault'] = OBS8.get('base-fault', 0) + 1
+      OBS8[k + ':' + case['api']] = OBS8.get(k + ':' + case['api'], 0) + 1
+      OBS8[k] = OBS8.get(k, 0) + 1
   ch = [c[0] for c in obs['choices']]
   return sum(1 for a, b in zip(ch, ch[1:]) if a != b) >= 10
 
@@ -234,8 +290,27 @@ def lts2_stage(ctx):
                                       f'(expected {"some" if expect else "none"}): {r["stuck"][:1]}'))
 
 
+INTR_PROMISED = ['wake cond1', 'acquire cond1', 'acquire rlock1', 'get_nowait q1', 'empty q1', 'wait cond1',
+                 'notify cond2', 'acquire cond2']
+OBS8_PROMISED = ['failure', 'clean-end', 'early-stop', 'base-fault', 'failure:multiplex', 'failure:piter_fn', 'failure:pmap']
+
+
+def round8_stage(ctx):
+  from harness.core import InfraError
+  ctx.hist['interrupt_at'] = dict(sorted(INTR.items()))
+  ctx.hist['observers_after'] = dict(sorted(OBS8.items()))
+  m1 = [k for k in INTR_PROMISED if not INTR.get(k)]
+  m2 = [k for k in OBS8_PROMISED if not OBS8.get(k)]
+  ctx.notes.append(f'round 8: {sum(v for k, v in INTR.items() if not k.startswith("not"))} runs with the consumer interrupted inside next() '
+                   f'at {len([k for k in INTR if not k.startswith("not")])} kinds of yield point (promised {INTR_PROMISED}, missing {m1}); '
+                   f'{sum(OBS8.get(k, 0) for k in ("failure", "clean-end", "early-stop"))} runs followed by later next() calls (missing {m2})')
+  if m1 or m2:
+    raise InfraError(f'C13 round 8: promised interrupt points / observer classes not exercised: {m1} {m2}')
+
+
 def extra(ctx):
   """Stage 2: real ThreadPoolExecutor, no shim (in a child process with a deadline)."""
+  round8_stage(ctx)
   lts2_stage(ctx)
   n = 500 if ctx.quick else 4000
   cases = []
